@@ -291,13 +291,23 @@ func (e *C10) Run(c *core.Ctx, idx int) {
 		return nil
 	}
 	var rd io.Reader = mon.NewRS(j.Bytes)
+	embedAt := 0
+	if readerKind == 0 && r.Chance(1, 4) {
+		// the stream is part of a larger seekable object (a preview inside a raw file, the second
+		// picture of a multi-picture file): the reader is positioned at its first byte, offsets are
+		// counted from there
+		embedAt = r.Pick(1, 2, 512, 4095, 4096, 4660, 70000)
+		rs := mon.NewRS(append(r.Bytes(embedAt), j.Bytes...))
+		rs.Pos = int64(embedAt)
+		rd = rs
+	}
 	switch readerKind {
 	case 1:
 		rd = bufio.NewReaderSize(rd, 64)
 	case 2:
 		rd = bufio.NewReaderSize(rd, r.Pick(4096, 4097, 8192, 70000))
 	}
-	desc := fmt.Sprintf("pattern=%s exifMode=%d xmpMode=%d reader=%d len=%d", pattern, exifMode, xmpMode, readerKind, len(j.Bytes))
+	desc := fmt.Sprintf("pattern=%s exifMode=%d xmpMode=%d reader=%d len=%d embedded_at=%d", pattern, exifMode, xmpMode, readerKind, len(j.Bytes), embedAt)
 	c.SetPhase(desc)
 	dumpInput(c, "ScanJPEG", j.Bytes)
 	// a caller may pass nil for either callback: those segments are then skipped like any other,
